@@ -2,6 +2,7 @@ package nodeutil
 
 import (
 	"context"
+	"fmt"
 
 	"github.com/freeconf/yang/meta"
 	"github.com/freeconf/yang/node"
@@ -79,18 +80,32 @@ func (self Tee) Peek(sel *node.Selection, consumer interface{}) interface{} {
 	return self.B.Peek(sel, consumer)
 }
 
-func (self Tee) BeginEdit(r node.NodeRequest) (err error) {
-	if err = self.A.BeginEdit(r); err == nil {
-		err = self.B.BeginEdit(r)
+// both nodes are told that an edit begins, or neither: a Tee whose BeginEdit fails is not
+// told EndEdit, so the first node is told here when the second one refuses
+func (self Tee) BeginEdit(r node.NodeRequest) error {
+	if err := self.A.BeginEdit(r); err != nil {
+		return err
 	}
-	return
+	if err := self.B.BeginEdit(r); err != nil {
+		if endErr := self.A.EndEdit(r); endErr != nil {
+			return fmt.Errorf("%w, and ending the edit on the first node: %w", err, endErr)
+		}
+		return err
+	}
+	return nil
 }
 
-func (self Tee) EndEdit(r node.NodeRequest) (err error) {
-	if err = self.A.EndEdit(r); err == nil {
-		err = self.B.EndEdit(r)
+// both nodes are told that the edit ended, whatever the first one answers
+func (self Tee) EndEdit(r node.NodeRequest) error {
+	errA := self.A.EndEdit(r)
+	errB := self.B.EndEdit(r)
+	if errA != nil && errB != nil {
+		return fmt.Errorf("%w, and on the second node: %w", errA, errB)
 	}
-	return
+	if errA != nil {
+		return errA
+	}
+	return errB
 }
 
 func (self Tee) Context(s *node.Selection) context.Context {
